@@ -251,13 +251,78 @@ Definition dec_real (b: bytes) : res real :=
            end
   end.
 
-(* character strings: which octet strings the type's text codec accepts (None = not modelled) *)
+(* character strings: which octet strings the type's text codec accepts.  bytes.decode(codec) of
+   CPython 3.12 with errors='strict', for the three Unicode codecs pyasn1/type/char.py names. *)
+
+(* 'utf-8' (Objects/stringlib/codecs.h utf8_decode): exactly the well-formed sequences of RFC 3629 /
+   Unicode table 3-7 - the range of the SECOND octet depends on the first (no overlong form E0 80..9F,
+   F0 80..8F; no surrogate ED A0..BF; nothing above F4 8F BF BF); C0, C1, F5..FF never start a
+   sequence; a sequence cut short by the end of the data is an error ('unexpected end of data') *)
+Definition utf8_cont (x: N) : bool := (0x80 <=? x) && (x <=? 0xBF).
+Fixpoint utf8_ok (b: bytes) : bool :=
+  match b with
+  | [] => true
+  | x :: r =>
+      if x <? 0x80 then utf8_ok r
+      else if (0xC2 <=? x) && (x <=? 0xDF) then
+        match r with c1 :: r1 => utf8_cont c1 && utf8_ok r1 | _ => false end
+      else if (0xE0 <=? x) && (x <=? 0xEF) then
+        match r with
+        | c1 :: c2 :: r2 =>
+            ((if x =? 0xE0 then 0xA0 else 0x80) <=? c1) && (c1 <=? (if x =? 0xED then 0x9F else 0xBF))
+            && utf8_cont c2 && utf8_ok r2
+        | _ => false
+        end
+      else if (0xF0 <=? x) && (x <=? 0xF4) then
+        match r with
+        | c1 :: c2 :: c3 :: r3 =>
+            ((if x =? 0xF0 then 0x90 else 0x80) <=? c1) && (c1 <=? (if x =? 0xF4 then 0x8F else 0xBF))
+            && utf8_cont c2 && utf8_cont c3 && utf8_ok r3
+        | _ => false
+        end
+      else false
+  end.
+
+(* 'utf-16-be' (Objects/stringlib/codecs.h utf16_decode, byte order fixed: no BOM is interpreted,
+   FE FF is U+FEFF): 16-bit units; a unit D800..DBFF must be followed by a unit DC00..DFFF
+   ('illegal UTF-16 surrogate' / 'unexpected end of data'), a unit DC00..DFFF on its own is an error
+   ('illegal encoding'), an odd octet at the end is an error ('truncated data') *)
+Fixpoint utf16be_ok (b: bytes) : bool :=
+  match b with
+  | [] => true
+  | [_] => false
+  | h :: l :: r =>
+      let u := h * 256 + l in
+      if (0xD800 <=? u) && (u <=? 0xDBFF) then
+        match r with
+        | h2 :: l2 :: r2 => let u2 := h2 * 256 + l2 in (0xDC00 <=? u2) && (u2 <=? 0xDFFF) && utf16be_ok r2
+        | _ => false
+        end
+      else if (0xDC00 <=? u) && (u <=? 0xDFFF) then false
+      else utf16be_ok r
+  end.
+
+(* 'utf-32-be' (Objects/unicodeobject.c PyUnicode_DecodeUTF32Stateful, byte order fixed): 32-bit
+   units, each below 110000 and outside D800..DFFF; 1-3 octets left over are 'truncated data' *)
+Fixpoint utf32be_ok (b: bytes) : bool :=
+  match b with
+  | [] => true
+  | b3 :: b2 :: b1 :: b0 :: r =>
+      let u := ((b3 * 256 + b2) * 256 + b1) * 256 + b0 in
+      (u <? 0x110000) && negb ((0xD800 <=? u) && (u <=? 0xDFFF)) && utf32be_ok r
+  | _ => false
+  end.
+
+(* Some ok = the codec accepts / refuses (UnicodeDecodeError); None = no such character-string type.
+   An all-ASCII UTF8String is answered without the checker (utf8_ok agrees: Proofs/Unicode.v utf8_ok_ascii) *)
 Definition str_octets_ok (n: N) (b: bytes) : option bool :=
   let ascii := forallb (fun x => N.ltb x 128) b in
   if existsb (N.eqb n) [18; 19; 22; 26; 24; 23] then Some ascii            (* us-ascii types *)
   else if existsb (N.eqb n) [20; 21; 25; 27; 7] then Some true              (* iso-8859-1 types *)
-  else if N.eqb n 12 then (if ascii then Some true else None)                (* utf-8 *)
-  else None.                                                                (* utf-16-be / utf-32-be *)
+  else if N.eqb n 12 then (if ascii then Some true else Some (utf8_ok b))    (* utf-8 *)
+  else if N.eqb n 30 then Some (utf16be_ok b)                               (* utf-16-be *)
+  else if N.eqb n 28 then Some (utf32be_ok b)                               (* utf-32-be *)
+  else None.
 
 (* asn1Spec.clone(value) / protoComponent.clone(value, tagSet=...) for a scalar *)
 Definition create (sp: option ty) (proto: ty) (ts: tagset) (v: val) : proc dval :=
